@@ -291,7 +291,7 @@ pub fn fcp_exact<S: Src, const GAP: u32, const CURBITS: u32>(s: &mut S) {
     assert!(r == Some((b1, v1)), "next() must return the next change point with the new value (none skipped, none invented)");
     let (c, p) = it.verif_parts();
     assert!(c == b1 && p == v1, "iterator state after next()");
-    crate::cover!(s, b1 - cur > 1000, "distant change point");
+    crate::cover!(s, b1 - cur > (1u64 << (GAP - 1)), "distant change point");
     crate::cover!(s, b1 - cur == 1, "adjacent change point");
     crate::cover!(s, b2 - b1 == 1, "two adjacent change points");
 }
